@@ -92,7 +92,11 @@ Inductive case :=
 | CQuote (k v ck cv gk gv : bytes) (fc : obs filter) (pc : obs (list pfield))
          (fg : obs filter) (pg : obs (list pfield))
          (name : bytes) (cfgs : list (bytes * bytes * bool))
-         (nf : obs unit) (mall : Z) (np : obs unit) (got : bytes).
+         (nf : obs unit) (mall : Z) (np : obs unit) (got : bytes)
+(* quoted words inside a value list and a fixed-order list *)
+| CQList (k v v2 ck cv cv2 gk gv gv2 : bytes) (flc flg : obs filter) (pfc pfg : obs (list pfield))
+(* bare words: w:v as filter, w as projection, k@(w v) *)
+| CBare (w v : bytes) (t : oracle) (fo : obs filter) (po xo : obs (list pfield)).
 
 Definition decode (s : sx) : option case :=
   match s with
@@ -106,6 +110,13 @@ Definition decode (s : sx) : option case :=
       do cfgs <- as_list (as_triple as_b as_b as_bool) cfgs;
       do nf <- dec_uobs nf; do np <- dec_uobs np;
       Some (CQuote k v ck cv gk gv fc pc fg pg name cfgs nf mall np got)
+  | SL [SZ 3; SB k; SB v; SB v2; SB ck; SB cv; SB cv2; SB gk; SB gv; SB gv2; flc; flg; pfc; pfg] =>
+      do flc <- dec_fobs flc; do flg <- dec_fobs flg; do pfc <- dec_pobs pfc; do pfg <- dec_pobs pfg;
+      Some (CQList k v v2 ck cv cv2 gk gv gv2 flc flg pfc pfg)
+  | SL [SZ 4; SB w; SB v; t; fo; po; xo] =>
+      do t <- as_list (as_pair as_b as_bool) t;
+      do fo <- dec_fobs fo; do po <- dec_pobs po; do xo <- dec_pobs xo;
+      Some (CBare w v t fo po xo)
   | _ => None
   end.
 
@@ -124,6 +135,32 @@ Definition np_ (t : oracle) (q : bytes) := new_projection sp (re_lookup t) q.
 Definition fields_eqb := list_eqb pfield_eqb.
 Definition colon (a b : bytes) : bytes := a ++ c_colon :: b.
 
+(** k:(a OR b)   and   k@(a b) *)
+Definition vlist_text (k a b : bytes) : bytes := k ++ bs ":(" ++ a ++ bs " OR " ++ b ++ bs ")".
+Definition fixed_text (k a b : bytes) : bytes := k ++ bs "@(" ++ a ++ bs " " ++ b ++ bs ")".
+
+(** ** bare words: the documented bareWord (first character none of - * dquote
+    ( ) : @ , and no later character a blank or one of ( ) : @ ,) read over
+    runes (a word is cut at any Unicode space), minus the keywords AND / OR; a
+    value must not start with a slash (that starts a regexp) *)
+Fixpoint plain_runes (w : bytes) (skip : nat) : bool :=
+  match w with
+  | [] => true
+  | _ :: w' =>
+      match skip with
+      | S k => plain_runes w' k
+      | O => let '(r, size) := decode_rune w in
+             negb (go_is_space r || is_op_r r || (r =? 32)%N) && plain_runes w' (size - 1)
+      end
+  end.
+Definition bare_safe (value : bool) (w : bytes) : bool :=
+  match w with
+  | [] => false
+  | c :: _ =>
+      negb (is_start_op c) && negb (Byte.eqb c c_dquote) && negb (value && Byte.eqb c c_fslash)
+      && negb (beq w word_AND) && negb (beq w word_OR) && plain_runes w 0
+  end.
+
 Definition corr_ok (c : case) : bool :=
   match c with
   | CSpace l =>
@@ -137,6 +174,15 @@ Definition corr_ok (c : case) : bool :=
       && obs_eq filter_eqb (pf [] (colon ck cv)) fc && obs_eq fields_eqb (pp_ [] ck) pc
       && obs_eq filter_eqb (pf [] (colon gk gv)) fg && obs_eq fields_eqb (pp_ [] gk) pg
       && obs_eq_u (nf_ [] (colon gk gv)) nf && obs_eq_u (np_ [] gk) np
+  | CQList k v v2 ck cv cv2 gk gv gv2 flc flg pfc pfg =>
+      beq (cquote k) ck && beq (cquote v) cv && beq (cquote v2) cv2
+      && obs_eq filter_eqb (pf [] (vlist_text ck cv cv2)) flc
+      && obs_eq filter_eqb (pf [] (vlist_text gk gv gv2)) flg
+      && obs_eq fields_eqb (pp_ [] (fixed_text ck cv cv2)) pfc
+      && obs_eq fields_eqb (pp_ [] (fixed_text gk gv gv2)) pfg
+  | CBare w v t fo po xo =>
+      obs_eq filter_eqb (pf t (colon w v)) fo && obs_eq fields_eqb (pp_ t w) po
+      && obs_eq fields_eqb (pp_ t (fixed_text (bs "k") w v)) xo
   end.
 
 Definition to_cfg (l : list (bytes * bytes * bool)) : list cfg :=
@@ -193,6 +239,28 @@ Definition prop_ok (c : case) : bool :=
           then Z.eqb mall (if beq (extract k name (to_cfg cfgs)) v then 1 else 0) else true)
       && (if is_ok np && negb (beq k key_config)
           then beq got (extract k name (to_cfg cfgs)) else true)
+  | CQList k v v2 ck cv cv2 gk gv gv2 flc flg pfc pfg =>
+      (* quoted words are ordinary strings in every position, whatever they spell (AND, OR, ...) *)
+      let want_f := FOr [FMatch k (MLit v) 0; FMatch k (MLit v2) 0] in
+      let is_f (o : obs filter) := match o with OOk x => filter_eqb x want_f | _ => false end in
+      let is_p (qk : bytes) (o : obs (list pfield)) :=
+        match o with
+        | OOk l => fields_eqb l [mkField k ord_fixed [v; v2] 0 (S (length qk))]
+        | _ => false
+        end in
+      is_f flc && is_f flg && is_p ck pfc && is_p gk pfg
+  | CBare w v t fo po xo =>
+      let n := length w + length v + 8 in
+      clean n fo && clean n po && clean n xo
+      (* an unquoted word without special characters denotes exactly its bytes *)
+      && (if bare_safe false w && bare_safe true v
+          then match fo with OOk x => filter_eqb x (FMatch w (MLit v) 0) | _ => false end else true)
+      && (if bare_safe false w
+          then match po with OOk l => fields_eqb l [mkField w ord_first [] 0 (length w)] | _ => false end
+          else true)
+      && (if bare_safe false w && bare_safe false v
+          then match xo with OOk l => fields_eqb l [mkField (bs "k") ord_fixed [w; v] 0 2] | _ => false end
+          else true)
   end.
 
 Definition run_case (s : sx) : N :=
